@@ -221,15 +221,30 @@ def _self_overwrite(job):
         z.writestr(b"first member " * 20, "first.txt")
         z.writestr(b"this member is named like the archive " * 50, member)
         z.writestr(b"last", "last.txt")
+    if member == "@dirlink":
+        # the archive itself carries a directory link back to its own directory, and a member below that link named
+        # like the archive: the output path reaches the archive only once the link has been made
+        os.makedirs(os.path.join(d, "lsrc"))
+        os.symlink(".", os.path.join(d, "lsrc", "dl"))
+        with py7zr.SevenZipFile(arc, "w") as z:
+            z.writestr(b"first member " * 20, "first.txt")
+            z.write(os.path.join(d, "lsrc", "dl"), "dl")
+            z.writestr(b"payload written through the link " * 60, "dl/" + os.path.basename(arcrel))
+        shutil.rmtree(os.path.join(d, "lsrc"))
     before = open(arc, "rb").read()
     raised = None
     old = os.getcwd()
+    opened = arc
+    if how.startswith("alias-"):
+        # the archive opened under another name of the same file
+        opened = os.path.join(os.path.dirname(arc), "alias_" + os.path.basename(arc))
+        (os.symlink if how == "alias-symlink" else os.link)(arc, opened)
     try:
         if how == "stream":
             f = open(arc, "rb")
             z = py7zr.SevenZipFile(f, "r")
         else:
-            z = py7zr.SevenZipFile(arc, "r")
+            z = py7zr.SevenZipFile(opened, "r")
         try:
             if how == "cwd":
                 os.chdir(d)
@@ -385,6 +400,7 @@ def run(ctx):
         # extraction into the archive's own directory of a member named like the archive
         sjobs = [(arcrel, member, how, tmp) for arcrel, member in (("a.7z", "a.7z"), ("sub/x.7z", "sub/x.7z"), ("a.7z", "b/../a.7z"))
                  for how in ("path", "stream", "cwd", "targets")]
+        sjobs += [("a.7z", "a.7z", "alias-symlink", tmp), ("a.7z", "a.7z", "alias-hardlink", tmp), ("a.7z", "@dirlink", "path", tmp), ("a.7z", "@dirlink", "stream", tmp)]
         for (arcrel, member, how, _), (st, val) in zip(sjobs, sandbox.pmap(_self_overwrite, sjobs, timeout=60)):
             conf = {"archive_path": "<dir>/" + arcrel, "member": member, "extract_into": "<dir>", "how": how}
             ctx.case(key=("self", arcrel, member, how), nontrivial=True, sample=conf)
